@@ -459,7 +459,20 @@ func canonTree(r *Run, o *Obs, id int64, depth int) string {
 		return "?"
 	}
 	if p.Value {
-		return "value:" + r.Spec.Regs[p.Reg].Value
+		// a ready value is named by what it was registered as (and its position among equally
+		// registered values of the type): WHICH value serves an identity is part of the wiring
+		sig := func(g Reg) string { return g.Value + "|" + g.Name + "|" + g.Group + "|" + strings.Join(g.As, ",") }
+		me := r.Spec.Regs[p.Reg]
+		n := 0
+		for i, g := range r.Spec.Regs {
+			if i == p.Reg {
+				break
+			}
+			if !g.Remove && g.Ctor < 0 && sig(g) == sig(me) {
+				n++
+			}
+		}
+		return fmt.Sprintf("value:%s#%d", sig(me), n)
 	}
 	if depth > 12 {
 		return "…"
@@ -610,6 +623,12 @@ func runC06(c *eng.Ctx) {
 			{Remove: true, RmType: "K1", Tail: true}, tailReg(mkReg("Leaf_K1_b", godi.Singleton))}},
 		{Regs: []Reg{mkReg("OutP_K0K1", godi.Singleton), mkReg("PosA_2_1", godi.Singleton), mkReg("PosB_3_1", godi.Singleton),
 			{Remove: true, RmType: "K0", Tail: true}, tailReg(mkReg("Leaf_K0_c", godi.Singleton))}},
+		// ready values: several values of one Go type in one collection (under keys, in a group, under
+		// aliases), consumed by constructors - which value serves which identity is the registrations'
+		// business, not the order of the calls
+		{Regs: []Reg{{Ctor: -1, Value: "K1", Life: godi.Singleton, Name: "k"}, {Ctor: -1, Value: "K1", Life: godi.Singleton}, mkReg("InU_0_2_Keyed", godi.Singleton), mkReg("PosA_2_2", godi.Scoped)}},
+		{Regs: []Reg{{Ctor: -1, Value: "K0", Life: godi.Singleton, Group: "g"}, {Ctor: -1, Value: "K0", Life: godi.Singleton, Group: "g"}, {Ctor: -1, Value: "K0", Life: godi.Singleton}, mkReg("InU_3_1_Group", godi.Singleton), mkReg("PosA_1_1", godi.Transient)}},
+		{Regs: []Reg{{Ctor: -1, Value: "S7", Life: godi.Singleton, Name: "k", As: []string{"IS7", "IA"}}, {Ctor: -1, Value: "S7", Life: godi.Singleton, Name: "k2", As: []string{"IS7", "IA"}}, {Ctor: -1, Value: "S7", Life: godi.Scoped}}},
 	}
 	for di, s := range directed {
 		idx, mine := cr.next()
@@ -638,7 +657,7 @@ func runC06(c *eng.Ctx) {
 		if k%5 == 3 {
 			s, _ = genCyclic(rng, true)
 		} else {
-			s, _ = GenSpec(rng, GenOpts{Want: ClsOK, Specials: k%3 == 0, Lifetimes: lifes, MultiAlias: full, OutGroup: full, Removes: k%4 == 2, Rebuild: k%7 == 3})
+			s, _ = GenSpec(rng, GenOpts{Want: ClsOK, Specials: k%3 == 0, Values: k%3 == 1, Lifetimes: lifes, MultiAlias: full, OutGroup: full, Removes: k%4 == 2, Rebuild: k%7 == 3})
 		}
 		if s == nil {
 			continue
